@@ -1,4 +1,5 @@
 import Agd.Model.Ratelimit
+import Agd.Model.RatelimitFront
 import Agd.Driver.Util
 /-! Line-protocol driver for the C09 model. -/
 namespace Agd.Driver.C09
@@ -20,6 +21,13 @@ def showV : Verdict → String
 def showE : Effect → String
   | .dropped => "dropped" | .servedNoCount => "served" | .servedCounted => "served"
 
+def showSeen : Seen → String
+  | .silent => "silent" | .upstream => "upstream" | .formerr => "formerr" | .servfail => "servfail"
+
+def parseFront : String → Front
+  | "ecs" => .badECS | "dev" => .devErr | "port0" => .spoofed | "blocked" => .blocked
+  | "unkded" => .unknownDedicated | _ => .ok
+
 def parsePrefixes : List String → List Prefix
   | a :: b :: c :: r => { is4 := bool! a, val := nat! b, bits := nat! c } :: parsePrefixes r
   | _ => []
@@ -35,6 +43,11 @@ def step (s : S) : List String → S × String
     let (c', a) := s.ctr.add (int! ts)
     let (r', b) := ringAdd s.ring s.ctr.ivl (int! ts)
     ({ s with ctr := c', ring := r' }, if a == b then showB a else "MODEL-INTERNAL-MISMATCH")
+  | ["radd", ts] =>
+    -- The ring alone (`RequestCounter.Add` as written), for stamps outside the statement's hypotheses:
+    -- non-positive, decreasing.
+    let (r', b) := ringAdd s.ring s.ctr.ivl (int! ts)
+    ({ s with ring := r' }, showB b)
   | ["cfg", count, period, duration, est, c4, i4, l4, c6, i6, l6, any] =>
     ({ s with cfg := { count := nat! count, period := int! period, duration := int! duration,
                        est := nat! est, v4count := nat! c4, v4ivl := int! i4, v4len := nat! l4,
@@ -91,6 +104,15 @@ def step (s : S) : List String → S × String
       { glob := s.st, prof := if bool! isProf then s.prof else none } (int! now) 2
       { is4 := bool! is4, val := nat! val } (nat! qt) respLen
     ({ s with st := m.glob, prof := if bool! isProf then m.prof else s.prof }, showE e)
+  | ["front", cls, limited, now, is4, val, qt, len, flen, isProf] =>
+    -- One request through the repaired `Wrap` (`frontStep`), the only profile under id 0.
+    let respLen := if len == "-" then none else some (nat! len)
+    let f : FReq := { front := parseFront cls, flen := nat! flen,
+                      req := { now := int! now, tick := 2, limited := bool! limited,
+                               addr := { is4 := bool! is4, val := nat! val }, qtype := nat! qt,
+                               resp := respLen, prof := if bool! isProf then some 0 else none } }
+    let (h, seen) := frontStep s.cfg { glob := s.st, profs := fun i => if i = 0 then s.prof else none } f
+    ({ s with st := h.glob, prof := h.profs 0 }, showSeen seen)
   | _ => (s, "bad-op")
 
 def main : IO Unit := loop step {}
